@@ -214,8 +214,8 @@ def build_case(mod, meta, prop, replayable=False, concrete=None):
         for e in f.log:
             if e['obj'] != mem.id:
                 continue
-            if not (want_c09 or (want_c08 and e['kind'] == 'W')):
-                continue
+            if not (want_c09 or want_c08):
+                continue      # C08 too: a call that faults on valid input does not move the lanes it was asked to move
             off, ln = e['off'], e['n']
             g = b_and(b_and(*e['pc']), e['guard'])
             A = mem.align
